@@ -190,15 +190,20 @@ case_reserve(long p)
         Hendaccess(a);
     /* the last element of the file, appendable: seek beyond its end (allowed), then write across the limit */
     {
-        uint16 lastref = Hexist(f, 1000, 4) != FAIL ? 4 : 3;
+        uint16 lastref = Hlength(f, 1000, 4) > 0 ? 4 : 3; /* a refused reservation may leave a descriptor without data */
         a              = Hstartaccess(f, 1000, lastref, DFACC_RDWR);
         int32 len = 0, off = 0;
         int16 sp = 0;
         if (a != FAIL && Happendable(a) != FAIL && Hinquire(a, NULL, NULL, NULL, &len, &off, NULL, NULL, &sp) != FAIL && !sp) {
             long room = I31 - ((long)off + len); /* bytes between the element's end and the limit */
             if (room >= 4 && room < I31 / 2) {
-                if (Hseek(a, (int32)(len + room - 4), DF_START) != FAIL) {
+                int32 sk = Hseek(a, (int32)(len + room - 4), DF_START);
+                if (mc_replaying)
+                    printf("  probe: last ref %u off %d len %d room %ld seek rc %d\n", lastref, (int)off, (int)len, room, (int)sk);
+                if (sk != FAIL) {
                     int32 n = Hwrite(a, 8, b);
+                    if (mc_replaying)
+                        printf("  probe: Hwrite returned %d\n", (int)n);
                     Hinquire(a, NULL, NULL, NULL, NULL, NULL, NULL, NULL, &sp);
                     if (!sp)
                         expect(MUST_FAIL, n == FAIL, "Hwrite:seek-past-end-then-write-beyond-2^31-1");
